@@ -97,6 +97,7 @@ func c01Explore(t *testing.T, r *verifmc.Report, family string, ver trie.TrieLay
 		},
 		Canon: func(s *vTrieState) []byte { return append(vDumpTrie(s.t), s.m.Canon()...) },
 		Sig:   vSigOf,
+		Soft:  vDrainSoft,
 		Depth: depth,
 	}
 	h.Explore(r)
